@@ -23,6 +23,19 @@ class Opaque:
         raise Unsupported("len() of opaque bytes outside the len shim")
 
 
+class ULEB:
+    """Abstract chunk produced by the contract stub of WriteInteger: the
+    unsigned LEB128 encoding of ``value`` (a z3 Int term).  Its byte length is
+    the uninterpreted function uleblen(value); C19.leb.unsigned proves
+    1 <= uleblen(v) <= 5 on [0, 2^32)."""
+
+    def __init__(self, value):
+        self.value = value
+
+
+uleblen = z3.Function("uleblen", z3.IntSort(), z3.IntSort())
+
+
 class ChunkIO:
     """Stand-in for io.BytesIO that records what is written, chunk by chunk."""
 
@@ -71,7 +84,7 @@ def flatten(x, out=None):
         out.extend(z3.IntVal(b) for b in bytes(x))
     elif isinstance(x, SymBytes):
         out.extend(term(b) for b in x.items)
-    elif isinstance(x, Opaque):
+    elif isinstance(x, (Opaque, ULEB)):
         out.append(x)
     elif isinstance(x, (list, tuple)):
         for c in x:
@@ -84,7 +97,12 @@ def flatten(x, out=None):
 def atoms_len(atoms):
     n = 0
     for a in atoms:
-        n = n + (a.length if isinstance(a, Opaque) else 1)
+        if isinstance(a, Opaque):
+            n = n + a.length
+        elif isinstance(a, ULEB):
+            n = n + SymInt(uleblen(a.value))
+        else:
+            n = n + 1
     return n
 
 
@@ -116,7 +134,7 @@ def udec_stream(atoms, pos, maxbytes=5):
         b = atoms[pos]
         pos += 1
         wf.append(z3.And(b >= 0, b <= 255))
-        value = value + (b % 128) * (128 ** i)
+        value = value + cur().divmod_const(b, 128)[1] * (128 ** i)
         i += 1
         if not cur().decide(b >= 128):
             break
@@ -138,14 +156,14 @@ def sdec_stream(atoms, pos, maxbytes=5):
         b = atoms[pos]
         pos += 1
         wf.append(z3.And(b >= 0, b <= 255))
-        value = value + (b % 128) * (128 ** i)
+        value = value + cur().divmod_const(b, 128)[1] * (128 ** i)
         i += 1
         if not cur().decide(b >= 128):
             break
         if i >= maxbytes:
             wf.append(z3.BoolVal(False))
             break
-    value = z3.If((b % 128) >= 64, value - 128 ** i, value)
+    value = z3.If(cur().divmod_const(b, 128)[1] >= 64, value - 128 ** i, value)
     return z3.simplify(value), pos, wf
 
 
